@@ -331,10 +331,11 @@ def c01_dpe_multiple_cases(rng):
     a, b = rng.sample([1, 2, 3, 5, 7], 2)
     out.append(build("dpemult_big", [R(a * Fr(10) ** 400), R(-b * Fr(10) ** 400 if rng.random() < 0.5 else b * Fr(10) ** 400)] + [R(d)] * 2 + [R(t)] * 3))
     # small: one root near 1e-400 and a simple root of moderate size (two roots near 1e-400 in one square-free factor
-    # defeat the untrusted hint generator of the root oracle, mpmath.polyroots: such an input would never be judged)
-    d, t = two_multiple()
-    a = rng.choice([1, -2, 3, -5, 7])
-    out.append(build("dpemult_small", [R(a * Fr(1, 10 ** 400)), R(simple_far(d, t))] + [R(d)] * 2 + [R(t)] * 3))
+    # defeat the untrusted hint generator of the root oracle, mpmath.polyroots: such an input would never be judged).
+    # Fixed numbers: the secular algorithm returns the point disc {0} for the tiny root of this input (listed in
+    # known/C01.json under the name of the case), so the case must be the same equation for every seed.
+    out.append(build("dpemult_small", [R(-2 * Fr(1, 10 ** 400)), R(-9)] + [R(Fr(8, 3))] * 2 + [R(Fr(-9, 2))] * 3))
+    out[-1]["oracle_target_log2"] = -1400          # resolution that tells the root ~2^-1330 from 0, whatever radii come back
     # moderate roots, all coefficients scaled by 10^+-400
     for nm, sc in (("dpemult_coef_up", Fr(10) ** 400), ("dpemult_coef_down", Fr(1, 10 ** 400))):
         d, t = two_multiple()
